@@ -1411,6 +1411,7 @@ static Death run_child(int kind, int64_t from, int64_t to, bool confirm) {
     if (pid == 0) { g_confirm = confirm; child_main(kind, from, to); }
     uint64_t last = g_shm->progress, last_change = vh::mono_ns();
     int64_t last_cur = -1;
+    off_t last_esz = 0;
     while (true) {
         int st = 0;
         pid_t w = waitpid(pid, &st, WNOHANG);
@@ -1421,9 +1422,12 @@ static Death run_child(int kind, int64_t from, int64_t to, bool confirm) {
         auto now = vh::mono_ns();
         if (now - before > 1000000000ull) { last_change = now; continue; }      // this process was frozen itself
         uint64_t p = g_shm->progress; int64_t c = g_shm->cur;
-        if (p != last || c != last_cur) { last = p; last_cur = c; last_change = now; vh::progress(); continue; }
+        struct stat sb;
+        off_t esz = stat(g_errfile.c_str(), &sb) == 0 ? sb.st_size : 0;
+        if (p != last || c != last_cur || esz != last_esz) { last = p; last_cur = c; last_esz = esz; last_change = now; vh::progress(); continue; }
         // no call into the mock stream and no new item for 30 s: the item in flight does not terminate
-        if (now - last_change > 30ull * 1000000000ull) {
+        // (a child that has started to write a sanitizer report is dying; symbolising the report can take long on a busy machine)
+        if (now - last_change > (esz > 0 ? 600ull : 30ull) * 1000000000ull) {
             kill(pid, SIGKILL);
             waitpid(pid, &st, 0);
             d.status = st; d.hung = true;
